@@ -27,8 +27,8 @@ def K(name):
         return {"vol": fmt(23 * 512, bpc=512, fats=1, root=16)}
     if name == "K1b":  # FAT12, 2 FATs, 16-slot root, ~30 clusters, embedded in a larger device
         return {"vol": fmt(36 * 512, bpc=512, fats=2, root=16, tail=8192)}
-    if name == "K2":  # FAT12, 512/2, 2 FATs, 32-slot root, ~60 clusters
-        return {"vol": fmt((1 + 2 + 2 + 120) * 512, bpc=1024, fats=2, root=32)}
+    if name == "K2":  # FAT12, 512/2, 2 FATs, 40-slot root (ends inside a sector: the root area is rounded up to 3 sectors), ~60 clusters
+        return {"vol": fmt((1 + 2 + 3 + 120) * 512, bpc=1024, fats=2, root=40)}
     if name == "K3":  # FAT16 512/1 (>= 4085 clusters)
         return {"vol": fmt(4300 * 512, bpc=512, fats=2, root=512, ft=16)}
     if name == "K4":  # FAT16, 4096-byte sectors
@@ -1265,7 +1265,7 @@ def foreign_volume(rng, ft, quick=True):
         vol["root_extra_clusters"] = rng.choice([0, 1])
     else:
         vol["rsvd"] = rng.choice([1, 1, 2, 9])
-        vol["rootn"] = rng.choice([16, 32, 64, 512]) * (bps // 512)
+        vol["rootn"] = rng.choice([16, 32, 64, 512]) * (bps // 512) + rng.choice([0, 0, 0, 1, 4, 9])    # (also root areas that end inside a sector)
         vol["use_ts16"] = rng.random() < 0.7
     bad = []
     if rng.random() < 0.5:
@@ -1758,6 +1758,18 @@ def first_mutation_program(rng, pid, cfg, cs, end="unmount"):
     ops.append({"op": "stats"})
     ops.append({"op": "unmount"})
     return {"id": pid, "cfg": cfg, "ops": ops, "origin": "first-mutation"}
+
+
+def top_clusters_volume(rng, ft):
+    """the largest volume of a table width (FAT12: 4084 clusters, FAT16: 65524) in which only a few clusters at the start and the
+    last dozen are free: files written now live in the highest cluster numbers of that width (0xFF0.., 0xFFF0..)"""
+    bps = 512
+    n = {12: 4084, 16: 65524}[ft]
+    head, tail_free = rng.randrange(1, 4), rng.randrange(8, 14)
+    vol = {"kind": "builder", "ft": ft, "bps": bps, "spc": 1, "n": n, "nfats": rng.choice([1, 2]), "pad": rng.choice(["zero", "eoc"]), "tail": 4096, "rootn": 64,
+           "bad": [[3 + head, n + 1 - tail_free]],
+           "tree": [{"kind": "f", "name": "seed.txt", "sfn": "SEED    TXT", "size": 10, "pat": 2}]}
+    return vol, bps
 
 
 def nearly_full_volume(rng, ft):
